@@ -671,6 +671,7 @@ impl Out {
     pub fn end(&mut self, case_id: &str) {
         WATCH_START_MS.store(0, std::sync::atomic::Ordering::SeqCst);
         self.event(&json!({"end": case_id, "t": now_ms()}));
+        self.flush();
     }
     pub fn flush(&mut self) {
         if let Some(l) = self.log.as_mut() {
@@ -737,6 +738,9 @@ pub fn watchdog_start(limit_s: u64, mem_mb: u64) {
     std::thread::spawn(move || loop {
         std::thread::sleep(std::time::Duration::from_millis(250));
         let st = WATCH_START_MS.load(Ordering::SeqCst);
+        if std::env::var("VH_DEBUG_WATCH").is_ok() {
+            eprintln!("watch: st={} now={} lim={}", st, now_ms(), WATCH_LIMIT_MS.load(Ordering::SeqCst));
+        }
         if st != 0 {
             let lim = WATCH_LIMIT_MS.load(Ordering::SeqCst);
             if now_ms().saturating_sub(st) > lim {
